@@ -99,8 +99,8 @@ def cfgRe (out : Path) (dry : Bool) : Cfg :=
     does write (`/o/d/a.py`) -/
 example : inDomain (cfgRe c!"/o/d" false) envRe fsRe = true := by decide +kernel
 example : Effect.openW c!"/o/d/a.py" ∈ trace (cfgRe c!"/o/d" false) envRe fsRe := by decide +kernel
-/-- non-vacuity of `dry_run_pure`: the dry run of the same configuration prints eleven lines -/
-example : (trace (cfgRe c!"/o/d" true) envRe fsRe).length = 0 := by decide +kernel
+/-- non-vacuity of `dry_run_pure`: the dry run of the same configuration prints 25 lines -/
+example : (trace (cfgRe c!"/o/d" true) envRe fsRe).length = 25 := by decide +kernel
 
 /-- **negation 1** (known finding C20-init-above-output): output directory `/o/gold` for `-m p` ⇒ `/o/__init__.py`,
     outside the output directory, is opened for appending. -/
